@@ -617,6 +617,70 @@ def cross_step(run, cs, results):
     run.notes['cross_step_worst_rel_difference'] = worst
 
 
+# ----------------------------------------------------------------------
+# several assemblies of one type (clones of one template) with spacer grids and gravity, different flows:
+# every assembly must report its own closed-form losses
+def sibling_cases(tier):
+    out = []
+    for bundle in (('b3',) if tier == 'quick' else ('b2', 'b3', 'w3')):
+        for nasm in (2, 3, 7) if tier != 'quick' else (2, 4):
+            for gm in ('K', 'REH'):
+                for structure in ('bundle', 'multi'):
+                    for dz in (None, 0.007):
+                        out.append(dict(bundle=bundle, friction='CTD', flow='turb', step_case='limit',
+                                        grid_case='fixed3', grid_model=gm, gravity=True, structure=structure,
+                                        nasm=nasm, user_dz=dz))
+    return out
+
+
+def run_siblings(c):
+    r = new_result()
+    V = r['violations']
+    grid_z = [0.05, 0.15, 0.25]
+    scn, flow = build_scn(c, c.get('user_dz'), grid_z)
+    pos = S.core_positions(2)[:c['nasm']]
+    spec = scn['power']['asm']['1']
+    scn['assign'] = [['A', rg, p, {'flowrate': flow * (1.0 + 0.4 * i)}] for i, (rg, p) in enumerate(pos)]
+    scn['power']['asm'] = {str(S.asm_id(rg, p) + 1): dict(spec) for rg, p in pos}
+    regs, bi = bounds(c)
+    lo, hi = regs[bi]
+    n_in = sum(1 for z in grid_z if lo - 1e-12 <= z <= hi + 1e-12)
+    with S.Built(scn) as b:
+        rx = _reactor(b)
+        stat = [[region_static(reg) for reg in a.region] for a in rx.assemblies]
+        kg = [float(a.rodded.coolant_int_params.get('grid_loss_coeff', float('nan'))) for a in rx.assemblies]
+        rx.temperature_sweep()
+        rho = float(dassh_density())
+        for ai, a in enumerate(rx.assemblies):
+            fr = sum(f * (z1 - z0) * rho * v * v / (2.0 * de) for (f, v, de, ar), (z0, z1) in zip(stat[ai], regs))
+            gv = rho * 9.80665 * L
+            v_b = stat[ai][bi][1]
+            gd = n_in * kg[ai] * rho * v_b * v_b / 2.0
+            parts = {'friction': 0.0, 'spacer_grid': 0.0, 'gravity': 0.0}
+            for reg in a.region:
+                for k, x in reg._pressure_drop.items():
+                    parts[k] += float(x)
+            for nm, got, want in (('friction', parts['friction'], fr), ('gravity', parts['gravity'], gv),
+                                  ('spacer_grid', parts['spacer_grid'], gd),
+                                  ('total', float(a.pressure_drop), fr + gv + gd)):
+                if abs(got - want) > TOL * max(abs(want), 1e-9):
+                    V.append(violation('sibling-' + nm, dict(c, asm=int(a.id)),
+                                       '%s pressure drop of assembly %d (one of %d clones of a type) differs from its '
+                                       'closed form' % (nm, a.id, c['nasm']), got, want, TOL * max(abs(want), 1e-9),
+                                       site='RoddedRegion.calculate_spacergrid_pressure_drop' if nm == 'spacer_grid' else None))
+            r['states'] += len(rx.z)
+        r['transitions'] = (len(rx.z) - 1) * len(rx.assemblies)
+    r['traces'] = 1
+    r['nontrivial'] = True
+    r['outcome'] = 'ok' if not V else 'violation'
+    return r
+
+
+def dassh_density():
+    import dassh
+    return dassh.Material(COOLANT).density
+
+
 def main(run):
     run.rule = ('one case = one complete sweep; families A (no grids: bundle x friction x flow x step x gravity x '
                 'structure), B (bare bundles with grids: ... x grid case), C (REH / CDD loss coefficient), '
@@ -635,6 +699,7 @@ def main(run):
     run.check_determinism(run_case, cs[0])
     res = run.explore('sweep', cs, run_case, budget_s=120, chunksize=4)
     cross_step(run, cs, res)
+    run.explore('siblings', sibling_cases(run.tier), run_siblings, budget_s=300, chunksize=1)
     run.notes['worst_rel_residual'] = max([x['info']['worst_rel_residual'] for x in res if x.get('info')] or [0.0])
     # vacuity
     need = [('step_used', 'user-step-honoured'), ('step_used', 'user-step-ignored'),
@@ -653,7 +718,7 @@ def replay(body):
     from ..run import guarded
     sc = dict(body['scenario'])
     sc.pop('ref_step_case', None)
-    r = guarded(run_case, sc, 600)
+    r = guarded(run_siblings if body.get('part') == 'siblings' else run_case, sc, 600)
     for v in r['violations']:
         print('VIOLATION property=C14 replay=(inline) kind=%s %s observed=%s expected=%s'
               % (v['kind'], v['what'], v.get('observed'), v.get('expected')))
